@@ -1,5 +1,7 @@
 import KV.Base.Sha256
+import KV.Base.Keccak
 import KV.Model.PartSet
+import KV.Model.HeaderWire
 -- kvdrv: partset KV.Drv.C13.step none
 /-! line protocol for the Merkle / part-set model (property C13), `H` = SHA-256.
 
@@ -15,6 +17,10 @@ import KV.Model.PartSet
     add index= bytes= ptotal= pindex= lh= aunts=     "<verdict> <count> <complete>"
     complete                                         0 | 1
     read                                             "ok <bytes>" | panic-incomplete | panic-index | panic-nil
+    headerbytes height= secs= nanos= numtxs= gas= lbh= lbt= lbp= prop= lch= tx= vh= nvh= ch= app= ev=
+                                                     "<wire bytes> <keccak256>" | panic   (Header.Hash)
+    sigbytes flag= addr= secs= nanos= sig=           wire bytes of one CommitSig | panic
+    commithash <flag>:<addr>:<secs>:<nanos>:<sig>*   Commit.Hash | panic
 -/
 namespace KV.Drv.C13
 open KV KV.Merkle KV.PartSet
@@ -42,6 +48,27 @@ def showAdd : AddResult → String
   | .added => "added"
 
 def b01 (b : Bool) : String := if b then "1" else "0"
+
+def kvHeader (t : List String) : Option HeaderWire.Header :=
+  match kvNat t "height", kvInt t "secs", kvNat t "nanos", kvNat t "numtxs", kvNat t "gas",
+        kvHex t "lbh", kvNat t "lbt", kvHex t "lbp", kvHex t "prop" with
+  | some height, some secs, some nanos, some numtxs, some gas, some lbh, some lbt, some lbp, some prop =>
+    match kvHex t "lch", kvHex t "tx", kvHex t "vh", kvHex t "nvh", kvHex t "ch", kvHex t "app", kvHex t "ev" with
+    | some lch, some tx, some vh, some nvh, some ch, some app, some ev =>
+      some { height := height, time := ⟨secs, nanos⟩, numTxs := numtxs, gasLimit := gas,
+             lastBlockID := ⟨lbh, lbt, lbp⟩, proposer := prop, lastCommitHash := lch, txHash := tx,
+             validatorsHash := vh, nextValidatorsHash := nvh, consensusHash := ch, appHash := app,
+             evidenceHash := ev }
+    | _, _, _, _, _, _, _ => none
+  | _, _, _, _, _, _, _, _, _ => none
+
+def parseSig (s : String) : Option HeaderWire.CommitSig :=
+  match s.splitOn ":" with
+  | [f, a, secs, nanos, sg] =>
+    match f.toNat?, ofHex a, secs.toInt?, nanos.toNat?, ofHex sg with
+    | some f, some a, some secs, some nanos, some sg => some ⟨f, a, ⟨secs, nanos⟩, sg⟩
+    | _, _, _, _, _ => none
+  | _ => none
 
 def step (s : State) (line : String) : State × String :=
   let toks := tokens line
@@ -99,6 +126,27 @@ def step (s : State) (line : String) : State × String :=
       let (ps', r) := addPart sha256 ps ⟨index, bytes, proof⟩
       (some ps', s!"{showAdd r} {ps'.count} {b01 (isComplete ps')}")
     | _, _, _, _ => (s, "bad-op")
+  | "headerbytes" :: rest =>
+    match kvHeader rest with
+    | some h =>
+      match HeaderWire.headerBytes h with
+      | some bz => (s, toHexTok bz ++ " " ++ toHexTok (keccak256 bz))
+      | none => (s, "panic")
+    | none => (s, "bad-op")
+  | "sigbytes" :: rest =>
+    match kvNat rest "flag", kvHex rest "addr", kvInt rest "secs", kvNat rest "nanos", kvHex rest "sig" with
+    | some f, some a, some secs, some nanos, some sg =>
+      match HeaderWire.sigBytes ⟨f, a, ⟨secs, nanos⟩, sg⟩ with
+      | some bz => (s, toHexTok bz)
+      | none => (s, "panic")
+    | _, _, _, _, _ => (s, "bad-op")
+  | "commithash" :: sigs =>
+    match sigs.mapM parseSig with
+    | some l =>
+      match HeaderWire.commitHash sha256 l with
+      | some h => (s, toHexTok h)
+      | none => (s, "panic")
+    | none => (s, "bad-op")
   | ["complete"] =>
     match s with
     | some ps => (s, b01 (isComplete ps))
